@@ -80,6 +80,19 @@ claimed["C09"] = dict(
    ref="DESIGN.md 5/C09, engine E2",
    technique="static dominance/guard rules and who-may-call on go/ssa (custom analyzer)")
 
+claimed["C15"] = dict(
+   text="Static guard and dataflow rules on the schedule generator decide, for all histories and limits, the memory bound clause: the working cache grows only "
+        "under a strict len(cache) < maxMemory test on the value appended to or right after a one-element removal, and every scheduled position is read from that "
+        "cache; and the ordering clause: each row is sorted after its last append. That positions are the right insertion slots, uniqueness and completeness are not decided.",
+   ref="DESIGN.md 5/C15, engine E2",
+   technique="static guard analysis on SSA values, value-web dataflow and must-pass-through rules on go/ssa (custom analyzer)")
+claimed["C01"] = dict(
+   text="Thin claim: a static sibling cross-check of the three block-application implementations decides three clauses necessary for equal roots — delete phase "
+        "dominates add phase, the older root is the left hash input and the incoming node the right one, and merging is guarded by the root not being empty. "
+        "Root equality over all histories (position arithmetic, deletion, TotalRows) is not decided.",
+   ref="DESIGN.md 5/C01, engine E2",
+   technique="static sibling-agreement cross-check: dominance, data-dependence classification of hash inputs and guard rules on go/ssa (custom analyzer)")
+
 pending = {}  # id -> reason, for properties whose check is not built yet
 
 not_applicable = {
